@@ -181,11 +181,11 @@ func init() {
 		Floors: []Floor{{"C16.R1@*.Bind:may-panic", 2, "may-panic scan of both Binds"}, {"C16.R1@*.Bind:(reflect.Value).Set", 2, "Set preconditions"}, {"C16.R1@*.Bind:(reflect.Value).IsNil", 2, "IsNil preconditions"}, {"C16.R2@*.Bind:unmarshal", 2, "Marshal->Unmarshal provenance"},
 			{"C16.R2@*.Bind:success-return", 2, "success only after binding"}, {"C16.R2@*.Bind:error-return", 2, "json errors returned"}, {"C16.R3@*.Bind:invalid-input-return", 2, "invalid inputs"}, {"C16.R5@*.Bind:fast-path", 2, "identity copy condition"}, {"C16.R5@Bind:siblings", 1, "sibling agreement"}},
 		Assumptions: append(append([]string{}, commonAssumptions...), "encoding/json is the reference for the round trip (cyclic data, panicking MarshalJSON are outside)")})
-	reg(&Prop{ID: "C17", Units: []string{"adapters"}, Technique: "static analysis: compositional symbolic exploration of adapter pairs (producer output substituted into the consumer) + wrapper summaries vs. specification",
-		Explanation: "The function-style node adapters are decided compositionally. For each producer (CustomNode.Prep / Exec / ExecFallback) every success path is explored and its output term recorded together with the facts about the Result its user function returned; each consumer (CustomNode.Exec / Post) is then explored with that output bound to its parameter and those facts (plus A5: payloads are not themselves Results) preloaded, and the Result its user function receives is compared with what the previous function returned: identical for an error Result from exec (never re-wrapped, never stripped), otherwise a Result whose value is exactly the returned value. A batch item (already a Result) must reach the exec function unwrapped. The Any-style wrappers of all three construction forms (option, NodeBuilder method, BatchNodeBuilder method) are located as closures stored into the function fields and checked against one specification (arguments: context/store unchanged, Value() of each Result; results: the user's value wrapped exactly once, the user's error itself), which also makes the forms interchangeable.",
+	reg(&Prop{ID: "C17", Units: []string{"adapters", "run"}, Technique: "static analysis: compositional symbolic exploration of adapter pairs (producer output substituted into the consumer) + wrapper summaries vs. specification",
+		Explanation: "The function-style node adapters are decided compositionally. For each producer (CustomNode.Prep / Exec / ExecFallback) every success path is explored and its output term recorded together with the facts about the Result its user function returned; each consumer (CustomNode.Exec / Post) is then explored with that output bound to its parameter and those facts (plus A5: payloads are not themselves Results) preloaded, and the Result its user function receives is compared with what the previous function returned: identical for an error Result from exec (never re-wrapped, never stripped), otherwise a Result whose value is exactly the returned value. A batch item (already a Result) must reach the exec function unwrapped. On the batch paths of Run a result slot may receive a freshly wrapped exec outcome only on a path where the outcome is known not to be a Result already (C17.R1 at batch post). The Any-style wrappers of all three construction forms (option, NodeBuilder method, BatchNodeBuilder method) are located as closures stored into the function fields and checked against one specification (arguments: context/store unchanged, Value() of each Result; results: the user's value wrapped exactly once, the user's error itself), which also makes the forms interchangeable.",
 		CaseRule:    "an obligation instance is one (producer path, consumer path, call) triple or one wrapper path; distinct = distinct rule@construct keys",
 		Floors: []Floor{{"C17.R1@prep->exec", 1, "prep value reaches exec"}, {"C17.R1@prep->post", 1, "prep value reaches post"}, {"C17.R1@exec->post", 1, "exec value and error result reach post"}, {"C17.R2@exec->post", 1, "error state preserved"}, {"C17.R2@CustomNode.Exec:producer", 1, "exec distinguishes error results"}, {"C17.R1@fallback->post", 1, "fallback value reaches post"},
-			{"C17.R1@item->exec", 1, "batch items unwrapped"}, {"C17.R3@*:wrapper", 7, "seven Any-style wrappers"}},
+			{"C17.R1@item->exec", 1, "batch items unwrapped"}, {"C17.R1@batch|*:post", 1, "batch result slots: exec outcomes wrapped only when they are not Results"}, {"C17.R3@*:wrapper", 7, "seven Any-style wrappers"}},
 		Assumptions: append(append([]string{}, commonAssumptions...), "A5: user payloads are not themselves flyt.Result values except where the framework produces them (batch items, error results)")})
 	reg(&Prop{ID: "C19", Units: []string{"config", "pool", "run"}, Technique: "static analysis: setter effect summaries compared across construction forms + constructor option-dispatch/apply-loop typestate + default/getter summaries",
 		Explanation: "Every setting has one effect summary (field written := function of the argument, per path condition on the argument), extracted by exploring the option's setter closure and the NodeBuilder / BatchNodeBuilder methods of the same name; forms with the same parameter type must have equal summaries, each path writes exactly one field, builder methods return their receiver. The constructors NewBaseNode / NewNode / NewBatchNode are explored with a monitor for the classification loop (each argument visited in ascending order and collected once under its established type) and the application loops (each collected list applied element by element, once, in ascending order, every collected list applied); the option kinds NewNode and NewBatchNode accept must coincide; base options and function options write disjoint fields. Defaults: a node built from no options has (1 attempt, 0 wait, concurrency 0, mode unset, no functions); getters return their field, the unset mode reads as continue; the mode setters store exactly the strings continue/stop; a pool size <= 0 becomes 1 (C08.R1); behaviour reads the configuration through the getters of the node being run (C02.R1, C08.R4/R6).",
